@@ -104,18 +104,21 @@ def current_hash():
 
 
 def _prune(flavor, keep):
+    """Remove cache entries of this flavor that have not been used for 3 hours (or beyond the newest 8)."""
     try:
         ents = [e for e in os.listdir(CACHE) if e.startswith(flavor + "-") and not e.endswith(".lock")]
     except OSError:
         return
+    now = time.time()
     ents = [(os.path.getmtime(os.path.join(CACHE, e)), e) for e in ents if e != keep]
     ents.sort(reverse=True)
-    for _, e in ents[1:]:
-        shutil.rmtree(os.path.join(CACHE, e), ignore_errors=True)
-        try:
-            os.unlink(os.path.join(CACHE, e + ".lock"))
-        except OSError:
-            pass
+    for i, (mt, e) in enumerate(ents):
+        if i >= 8 or now - mt > 3 * 3600:
+            shutil.rmtree(os.path.join(CACHE, e), ignore_errors=True)
+            try:
+                os.unlink(os.path.join(CACHE, e + ".lock"))
+            except OSError:
+                pass
 
 
 class Flavor:
